@@ -1010,28 +1010,72 @@ def run(ctx):
         def b64e(x):
             return base64.urlsafe_b64encode(x).rstrip(b"=").decode()
 
-        def jwe_encrypt(enc, ser, payload, stream=None, zipv="DEF"):
-            """-> (token, key).  stream: foreign octets to put in place of compress(payload)."""
+        last_encrypt = {}
+
+        def wire_oracle(logx, p, zipv, label, rep):
+            encs_ = [e for e in logx if e[0] == "encrypt"]
+            bump("wire_checked")
+            for e in encs_:
+                for kind, text in wire_verdict(e[2], p, zipv):
+                    ctx.violation({"kind": kind, "fn": "encrypt"} if kind == "correspondence" else {"kind": kind},
+                                  "%s: %s" % (label, text), rep)
+
+        def enc_tail_case(logx, p, zipv, after_plain, label, step, d):
+            """one recorded perform_encrypt -> CEncTail case (model of the zip step)"""
+            comp = [e for e in logx if e[0] == "compress"]
+            encs_ = [e for e in logx if e[0] == "encrypt"]
+            spf = spf_for({"data": d})
+            if len(encs_) != 1 or len(comp) > 1:
+                return
+            psp, asp, esp = spf(p), spf(after_plain), spf(encs_[0][2])
+            zsp = spf(comp[0][3]) if comp else ("lit", b"")
+            zarg_ok = (not comp) or comp[0][1] == p
+            if None in (psp, asp, esp, zsp):
+                skipped_big[0] += 1
+                return
+            zt = "None" if zipv is None else '(Some "%s"%%string)' % zipv
+            add("CEncTail None %s %s %s %s %s %s" % (zt, spec_term(psp), spec_term(zsp if zarg_ok else ("lit", b"")),
+                                                  c_bool(bool(comp)), spec_term(esp), spec_term(asp)),
+                ("enctail", label, step, d))
+
+        def jwe_encrypt(enc, ser, payload, stream=None, zipv="DEF", aads=None, ddesc=None):
+            """-> (token, key).  stream: foreign octets to put in place of compress(payload).
+            Every encrypt made with the library's own compressor goes through the wire oracle."""
             if stream is not None:
                 zipm.compress = lambda p: stream
+            ins.reset()
+            aad = None
             try:
                 prot = {"enc": enc.name}
                 if zipv is not None:
                     prot["zip"] = zipv
                 if ser == "compact":
                     prot["alg"] = "dir"
-                    return jwe.encrypt_compact(prot, payload, keys[enc.name]), keys[enc.name]
-                if ser == "flattened":
+                    out = jwe.encrypt_compact(prot, payload, keys[enc.name]), keys[enc.name]
+                elif ser == "flattened":
                     prot["alg"] = "dir"
-                    obj = jwe.FlattenedJSONEncryption(prot, payload, aad=rng.choice([None, b"extra aad"]))
+                    aad = rng.choice(aads or [None, b"extra aad", b""])
+                    obj = jwe.FlattenedJSONEncryption(prot, payload, aad=aad)
                     obj.add_recipient({}, keys[enc.name])
-                    return jwe.encrypt_json(obj, None), keys[enc.name]
-                obj = jwe.GeneralJSONEncryption(prot, payload, aad=rng.choice([None, b"aad"]))
-                for _ in range(rng.choice([1, 2])):
-                    obj.add_recipient({"alg": "A128KW"}, kw_key)
-                return jwe.encrypt_json(obj, None), kw_key
+                    out = jwe.encrypt_json(obj, None), keys[enc.name]
+                else:
+                    aad = rng.choice(aads or [None, b"aad", b""])
+                    obj = jwe.GeneralJSONEncryption(prot, payload, aad=aad)
+                    for _ in range(rng.choice([1, 2])):
+                        obj.add_recipient({"alg": "A128KW"}, kw_key)
+                    out = jwe.encrypt_json(obj, None), kw_key
             finally:
                 zipm.__dict__.pop("compress", None)
+            logx = list(ins.log)
+            last_encrypt["log"] = logx
+            if stream is None:
+                rep = {"fn": "wire", "enc": enc.name, "ser": ser, "aad_hex": aad.hex() if aad is not None else None}
+                if len(payload) <= 2048:
+                    rep["plaintext_hex"] = bytes(payload).hex()
+                else:
+                    rep["data"] = ddesc
+                wire_oracle(logx, bytes(payload), zipv, "%s/%s encrypt" % (enc.name, ser), rep)
+            return out
 
         def jwe_decrypt(token, key, **kw):
             ins.reset()
@@ -1124,7 +1168,7 @@ def run(ctx):
                         d["pat"] = pat.hex()
                     p = data_of(d)
                     desc = {"enc": enc.name, "ser": ser, "data": d, "how": "impl"}
-                    token, key = jwe_encrypt(enc, ser, p)
+                    token, key = jwe_encrypt(enc, ser, p, ddesc=d)
                     check_jwe(token, key, p if n <= LIMIT else None, n, "%s/%s/own-compressor" % (enc.name, ser), desc)
                 # a foreign stream: zlib-wrapped default header, stored, other level
                 for fd in ([{"how": "obj", "level": 6, "wbits": 15, "strategy": 0},
@@ -1139,7 +1183,7 @@ def run(ctx):
                     check_jwe(token, key, p if n <= LIMIT else None, n, "%s/%s/foreign-%s" % (enc.name, ser, fd["how"]), desc)
                 # tampered: authentication fails -> nothing is decompressed
                 d = {"cls": "const", "c": cbyte, "n": rng.choice([10, 5000, LIMIT + 5])}
-                token, key = jwe_encrypt(enc, ser, data_of(d))
+                token, key = jwe_encrypt(enc, ser, data_of(d), ddesc=d)
                 for part in ("ciphertext", "tag"):
                     desc = {"enc": enc.name, "ser": ser, "data": d, "how": "impl", "tamper": part, "seed_note": "bit flip"}
                     t2 = tamper(token, part)
@@ -1220,7 +1264,7 @@ def run(ctx):
             p = data_of(d)
             for enc in two_encs:
                 for ser in ("compact", "flattened"):
-                    token, key = jwe_encrypt(enc, ser, p)
+                    token, key = jwe_encrypt(enc, ser, p, ddesc=d)
                     check_jwe(token, key, p, len(p), "%s/%s/leading-octet" % (enc.name, ser),
                               {"enc": enc.name, "ser": ser, "data": d, "how": "impl"})
         tick("G2")
@@ -1260,21 +1304,9 @@ def run(ctx):
                                   label, step, what,
                                   "now %d octets (was %d)" % (len(after[what] or b""), len(snap[what] or b""))
                                   if what == "plaintext" else "%r -> %r" % (snap[what], after[what])), rep)
-            # correspondence with the model of the zip step
-            comp = [e for e in logx if e[0] == "compress"]
-            encs_ = [e for e in logx if e[0] == "encrypt"]
-            spf = spf_for({"data": d})
-            if len(encs_) == 1 and len(comp) <= 1:
-                psp, asp, esp = spf(p), spf(after["plaintext"] or b""), spf(encs_[0][2])
-                zsp = spf(comp[0][3]) if comp else ("lit", b"")
-                zarg_ok = (not comp) or comp[0][1] == p
-                if None in (psp, asp, esp, zsp):
-                    skipped_big[0] += 1
-                else:
-                    zt = "None" if "zip" not in snap["protected"] else '(Some "%s"%%string)' % snap["protected"]["zip"]
-                    add("CEncTail None %s %s %s %s %s %s" % (zt, spec_term(psp), spec_term(zsp if zarg_ok else ("lit", b"")),
-                                                          c_bool(bool(comp)), spec_term(esp), spec_term(asp)),
-                        ("enctail", label, step, d))
+            # wire oracle + correspondence with the model of the zip step
+            wire_oracle(logx, p, snap["protected"].get("zip"), "%s encrypt #%d" % (label, step), rep)
+            enc_tail_case(logx, p, snap["protected"].get("zip"), after["plaintext"] or b"", label, step, d)
             token = r[1]
             for again in (1, 2):
                 tk = token if isinstance(token, str) else json.loads(json.dumps(token))
@@ -1285,17 +1317,18 @@ def run(ctx):
         seq_encs = encs if not ctx.quick else rng.sample(encs, 2)
         seq_data = [{"cls": "const", "c": cbyte, "n": 80000}, {"cls": "periodic", "pat": pat.hex(), "n": LIMIT},
                     {"cls": "lcg", "n": rng.randrange(200, 1400)},
-                    {"cls": "lit", "hex": b'{"iss":"a","sub":"b","n":[1,2,3]}'.hex(), "n": 33}]
+                    {"cls": "lit", "hex": b'{"iss":"a","sub":"b","n":[1,2,3]}'.hex(), "n": 33},
+                    {"cls": "lit", "hex": "", "n": 0}]
         if kept:
             seq_data.append(kept[0])
         for enc in seq_encs:
             k1, k2 = keys[enc.name], OctKey.import_key(bytes(rng.randrange(256) for _ in range(enc.cek_size // 8)))
             kw2 = OctKey.import_key(bytes(rng.randrange(256) for _ in range(32)))
-            for d in (seq_data if not ctx.quick else rng.sample(seq_data, 3)):
+            for d in (seq_data if not ctx.quick else rng.sample(seq_data[:-2], 2) + [seq_data[-2]]):
                 p = data_of(d)
                 # flattened JSON, direct key; third encrypt for another recipient key
                 obj = jwe.FlattenedJSONEncryption({"enc": enc.name, "zip": "DEF", "alg": "dir"}, p,
-                                                  aad=rng.choice([None, b"associated"]))
+                                                  aad=rng.choice([None, b"associated", b""]))
                 obj.add_recipient({}, k1)
                 snap = snapshot(obj)
                 lab = "%s/flattened-object" % enc.name
@@ -1304,7 +1337,7 @@ def run(ctx):
                 obj.add_recipient({}, k2)
                 seq_step(obj, lambda: jwe.encrypt_json(obj, None), k2, p, d, lab, 3, snapshot(obj) | {"plaintext": snap["plaintext"]})
                 # general JSON, key wrapping, shared unprotected header; recipient set replaced for the third encrypt
-                obj = jwe.GeneralJSONEncryption({"enc": enc.name, "zip": "DEF"}, p, {"cty": "x"}, aad=rng.choice([None, b"aad"]))
+                obj = jwe.GeneralJSONEncryption({"enc": enc.name, "zip": "DEF"}, p, {"cty": "x"}, aad=rng.choice([None, b"aad", b""]))
                 obj.add_recipient({"alg": "A128KW"}, kw_key)
                 obj.add_recipient({"alg": "A128KW", "kid": "second"}, kw_key)
                 snap = snapshot(obj)
@@ -1340,6 +1373,29 @@ def run(ctx):
                     check_jwe(r[1], k1, p if len(p) <= LIMIT else None, len(p), "%s/compact-function/#%d" % (enc.name, step),
                               {"sequence": "compact-function", "step": step, "data": d, "enc": enc.name, "ser": "seq"}, coq=False)
         tick("G3")
+        # ---- G4. degenerate and falsy-but-valid values with zip=DEF: plaintexts of 0, 1, 2 octets, aad b"" / None,
+        # every enc and every serialization: the wire carries the raw DEFLATE stream of the plaintext (03 00 for b"")
+        for enc in encs:
+            for ser in sers:
+                for p in [b"", bytes([rng.randrange(256)]), bytes(rng.randrange(256) for _ in range(2))] + \
+                        ([b"\x00", b"0", b" "] if not ctx.quick else []):
+                    d = {"cls": "lit", "hex": p.hex(), "n": len(p)}
+                    token, key = jwe_encrypt(enc, ser, p, aads=[b"", None] if ser != "compact" else None)
+                    enc_tail_case(last_encrypt["log"], p, "DEF", p, "%s/%s/degenerate" % (enc.name, ser), 1, d)
+                    check_jwe(token, key, p, len(p), "%s/%s/degenerate-%d" % (enc.name, ser, len(p)),
+                              {"enc": enc.name, "ser": ser, "data": d, "how": "impl"})
+        # decompress itself on degenerate inputs: recorded (b"" is not a stream: nothing is demanded for it)
+        degenerate = {}
+        for name, s in [("empty", b""), ("0300", b"\x03\x00"), ("010000ffff", b"\x01\x00\x00\xff\xff")]:
+            ins.reset()
+            r = call(zipm.decompress, s)
+            degenerate[name] = ("ok %s" % r[1].hex()) if r[0] == "ok" else exn_class(r[1])
+            if name != "empty" and r != ("ok", b""):
+                ctx.violation({"kind": "within-limit-rejected"},
+                              "decompress(%s) (a complete raw stream of the empty plaintext) gave %s" % (name, degenerate[name]),
+                              {"fn": "decompress", "stream_hex": s.hex(), "stream": None})
+        ctx.coverage["degenerate_inputs"] = degenerate
+        tick("G4")
         # the 64 MiB / 512 MiB expansion through a JWE (in-process; memory measured above)
         token, key = jwe_encrypt(encs[0], "compact", b"x", stream=huge_raw)
         check_jwe(token, key, None, zn, "%s/compact/huge" % encs[0].name,
@@ -1435,6 +1491,59 @@ def run(ctx):
         ctx.coqchk()
 
 
+def wire_verdict(m, p, zipv):
+    """The octets handed to enc.encrypt for plaintext p.  With zip=DEF they must be one complete raw RFC 1951
+    stream of p (strict: end of stream reached, nothing after it) -> list of (kind, text)."""
+    bad = []
+    if zipv == "DEF":
+        d = zlib.decompressobj(-15)
+        rr = call(d.decompress, bytes(m))
+        if not (rr[0] == "ok" and rr[1] == p and d.eof and not d.unused_data):
+            why = ("raw inflate raises " + exn_class(rr[1])) if rr[0] == "err" else (
+                "the stream is incomplete (end of stream not reached)" if not d.eof else
+                "trailing octets after the stream" if d.unused_data else "it inflates to other data")
+            bad.append(("wire-not-raw-deflate",
+                        "the octets encrypted for a zip=DEF message with a %d-octet plaintext are %s (%d octets): "
+                        "not a complete raw DEFLATE stream of the plaintext: %s" % (len(p), short(bytes(m), 12) or "empty", len(m), why)))
+        elif bytes(m) != zlib.compress(p)[2:-4]:
+            bad.append(("correspondence", "the octets encrypted differ from zlib.compress(p)[2:-4] (|p|=%d)" % len(p)))
+    elif zipv is None and bytes(m) != p:
+        bad.append(("wire-plaintext", "without zip the octets encrypted are not the plaintext (|p|=%d)" % len(p)))
+    return bad
+
+
+def replay_wire(enc_name, ser, p, aad):
+    from joserfc import jwe
+    from joserfc.jwk import OctKey
+    from joserfc.rfc7516.registry import JWERegistry
+    enc = JWERegistry.algorithms["enc"][enc_name]
+    key = OctKey.import_key(bytes(range(enc.cek_size // 8)))
+    kw = OctKey.import_key(bytes(range(16)))
+    with Instr() as ins:
+        ins.reset()
+        prot = {"enc": enc.name, "zip": "DEF"}
+        if ser == "compact":
+            jwe.encrypt_compact(dict(prot, alg="dir"), p, key)
+        elif ser == "flattened":
+            obj = jwe.FlattenedJSONEncryption(dict(prot, alg="dir"), p, aad=aad)
+            obj.add_recipient({}, key)
+            jwe.encrypt_json(obj, None)
+        else:
+            obj = jwe.GeneralJSONEncryption(prot, p, aad=aad)
+            obj.add_recipient({"alg": "A128KW"}, kw)
+            jwe.encrypt_json(obj, None)
+        logx = list(ins.log)
+    bad = []
+    for e in logx:
+        if e[0] == "encrypt":
+            print("enc.encrypt received", short(e[2], 16) or "<empty>", "(%d octets)" % len(e[2]))
+            bad += wire_verdict(e[2], p, "DEF")
+    if not any(e[0] == "encrypt" for e in logx):
+        bad.append(("no-encrypt", "enc.encrypt was not called"))
+    print("verdict:", bad)
+    return 1 if bad else 0
+
+
 def replay_sequence(enc_name, d, steps):
     """encrypt one FlattenedJSONEncryption object `steps` times, decrypt the last result"""
     from joserfc import jwe
@@ -1447,7 +1556,12 @@ def replay_sequence(enc_name, d, steps):
     obj.add_recipient({}, key)
     bad = []
     for k in range(max(2, int(steps))):
-        token = jwe.encrypt_json(obj, None)
+        with Instr() as ins:
+            ins.reset()
+            token = jwe.encrypt_json(obj, None)
+            for e in list(ins.log):
+                if e[0] == "encrypt":
+                    bad += ["encrypt #%d: %s" % (k + 1, text) for _kind, text in wire_verdict(e[2], p, "DEF")]
         if obj.plaintext != p:
             bad.append("after encrypt #%d the object's plaintext has %d octets (was %d)" % (k + 1, len(obj.plaintext), len(p)))
         out = call(jwe.decrypt_json, json.loads(json.dumps(token)), key)
@@ -1488,6 +1602,9 @@ def replay(path):
         good = o == ("ok", p) and d.eof and not d.unused_data and not c.startswith(ZHEAD)
         print("compress |p|=%d -> head %s raw-stream=%r" % (len(p), c[:8].hex(), good))
         return 0 if good else 1
+    if fn == "wire":
+        return replay_wire(r["enc"], r["ser"], bytes.fromhex(r["plaintext_hex"]) if r.get("plaintext_hex") is not None
+                           else data_of(r["data"]), bytes.fromhex(r["aad_hex"]) if r.get("aad_hex") is not None else None)
     if fn == "sequence":
         enc_name = r["label"].split("/")[0]
         return replay_sequence(enc_name, r["data"], r.get("step", 2))
